@@ -199,6 +199,44 @@ pub fn run_history(history: usize, n: usize, mode: usize, stride: usize, seed: u
     let mut next_cp = 64usize;
     let hname = HISTORIES[history];
 
+    // Prologue (round 17): earlier, unrelated activity of the same thread on a scratch treap that
+    // is dropped before the history starts. Whatever the library keeps per thread between calls
+    // (a recycled priority, a cached node, a flag) is then in the state the LAST call of the
+    // prologue left it in - after a removal, after an insertion, after a split - instead of
+    // always pristine. A function of the seed alone, so a replay repeats it.
+    {
+        let mut prng = Rng::new(seed ^ 0x9E37_79B9);
+        let variant = prng.urange(0, 3);
+        if variant > 0 {
+            let mut scratch: Treap<Plain> = Treap::new();
+            for i in 0..prng.urange(2, 6) {
+                scratch.insert_at(i / 2, Plain::new(1_000_000 + i as u32));
+            }
+            match variant {
+                1 => {
+                    // last call: remove_at
+                    let pos = prng.urange(0, scratch.size() - 1);
+                    std::hint::black_box(scratch.remove_at(pos));
+                }
+                2 => {
+                    // remove_at, then insert_at as the last call
+                    let pos = prng.urange(0, scratch.size() - 1);
+                    let it = scratch.remove_at(pos);
+                    scratch.insert_at(0, it);
+                }
+                _ => {
+                    // from_item + merge, a split, then remove_at(0) as the last call
+                    let single = Treap::from_item(Plain::new(2_000_000));
+                    scratch = Treap::merge(scratch, single);
+                    let (a, b) = scratch.split_at(1);
+                    scratch = Treap::merge(b, a);
+                    std::hint::black_box(scratch.remove_at(0));
+                }
+            }
+            drop(scratch);
+        }
+    }
+
     // expected in-order key sequence is tracked only in closed form (see `expect`)
     let mut inserted = 0usize;
     let mut key_sum: u64 = 0;
